@@ -49,6 +49,7 @@ fn main() {
     let mut exit = 0;
     let mut out = String::new();
     let mut digest = None;
+    let mut bp_dirs: Vec<(String, String, bool)> = Vec::new();
     match (prog.as_str(), sub) {
         ("pack", "build") => {
             let image = args.get(1).copied().unwrap_or("").to_string();
@@ -74,7 +75,20 @@ fn main() {
                         }
                         i += 2;
                     }
-                    "--builder" | "--pull-policy" | "--buildpack" => i += 2,
+                    "--buildpack" => {
+                        if let Some(v) = args.get(i + 1) {
+                            let d = Path::new(v);
+                            if d.is_dir() {
+                                bp_dirs.push((
+                                    (*v).to_string(),
+                                    std::fs::read_to_string(d.join("buildpack.toml")).unwrap_or_default(),
+                                    d.join("bin/build").is_file(),
+                                ));
+                            }
+                        }
+                        i += 2;
+                    }
+                    "--builder" | "--pull-policy" => i += 2,
                     _ => i += 1,
                 }
             }
@@ -202,7 +216,7 @@ fn main() {
         let _ = writeln!(
             f,
             "{}",
-            json!({"i": global, "nc": nc_index, "prog": prog, "argv": args, "exit": exit, "injected": injected, "digest": digest})
+            json!({"i": global, "nc": nc_index, "prog": prog, "argv": args, "exit": exit, "injected": injected, "digest": digest, "bp_dirs": bp_dirs})
         );
     }
     print!("{out}");
